@@ -418,9 +418,9 @@ def write_entries(body, S, ctor_ids, ctor_fields):
         ctor = m.group(1)
         env, tag = {}, []
         if m.group(2):
-            for f, v in field_inits(m.group(2).replace("ref ", "")):
+            for f, v in field_inits(re.sub(r",?\s*\.\.\s*$", "", m.group(2).replace("ref ", "").strip())):
                 if f == "_" or v.strip() == "_":
-                    continue
+                    continue                         # `field: _` and a trailing `..` both ignore fields
                 v = v.strip()
                 fi = field_slot_base(ctor, f, S, ctor_fields)
                 mm = re.fullmatch(r"Winding::(\w+)", v)
@@ -521,6 +521,15 @@ def write_seq(code, env, S):
         else:
             fmt = m.group(5).replace('\\"', '"')
             args = split_top(m.group(6)[1:]) if m.group(6).strip() else []
+            # a string literal given as an argument (a keyword passed to a helper that was inlined) is part of the text
+            parts, k = re.split(r"(\{\})", fmt), 0
+            for i_, part in enumerate(parts):
+                if part == "{}" and k < len(args):
+                    if re.fullmatch(r'"(?:\\.|[^"\\])*"', args[k].strip()):
+                        parts[i_] = args[k].strip()[1:-1]
+                        args[k] = None
+                    k += 1
+            fmt, args = "".join(parts), [a for a in args if a is not None]
             slots += fmt_operands(fmt, args, env, S)
             # "/{}" writes a name operand: the slash is the name marker, not part of the keyword
             lit = re.sub(r"/?\{\w*\}", " ", fmt).replace("[", " ").replace("]", " ").strip()
@@ -625,10 +634,10 @@ def write_arm(ctor, tag, env, arm, S, ctor_ids, ctor_fields):
 # --------------------------------------------------------------------------------------------
 
 def extract(g, X):
-    prim = X.strip_comments(X.read("pdf/src/primitive.rs"))
-    cont = X.strip_comments(X.read("pdf/src/content.rs"))
-    types = X.strip_comments(X.read("pdf/src/object/types.rs"))
-    objm = X.strip_comments(X.read("pdf/src/object/mod.rs"))
+    prim = X.source("pdf/src/primitive.rs")
+    cont = X.source("pdf/src/content.rs")
+    types = X.source("pdf/src/object/types.rs")
+    objm = X.source("pdf/src/object/mod.rs")
 
     # serialize_name's tables (name_ser_raw_lo/hi/except) are generated by gen/extract_syn.py
 
@@ -725,8 +734,9 @@ def extract(g, X):
             raise ValueError("expand_abbr_name calls: %d" % len(keys))
         uses = {}
         for m in re.finditer(r"\bexpand_abbr\s*\(", b):
-            stmt = b[b.rfind(";", 0, m.start()) + 1:m.start()]
-            k = re.findall(r'\w+\.(?:get|remove)\(\s*"(\w+)"\s*\)', stmt)
+            (sa, sb), = [(x, y) for x, y in X.statements(b) if x <= m.start() < y]
+            stmt = b[sa:m.start()]
+            k = re.findall(r'\w+\s*\.\s*(?:get|remove)\(\s*"(\w+)"\s*\)', stmt)
             if len(k) != 1 or k[0] in uses:
                 raise ValueError("use of the tables changed")
             uses[k[0]] = call_args(m)[1]
